@@ -167,7 +167,7 @@ def cg_cases(draw):
     profile, values = draw(S.values_lists(max(2, n_max - 3), n_max, numbins=k,
                                           profiles=["tiny", "small", "medium", "medium", "large", "large", "two-valued", "one-dominant",
                                                     "planted", "planted", "planted", "arithmetic"]))
-    return {"alg": "cg", "values": values, "numbins": k, "pres": draw(st.sampled_from(["list", "list", "dict-str"])),
+    return {"alg": "cg", "values": values, "numbins": k, "pres": draw(st.sampled_from(["list", "list", "dict-str", "dict-int", "names-array"])),
             "nseed": draw(st.integers(0, 5)), "profile": profile, "cutseed": draw(st.integers(0, 2 ** 30)),
             "opts": {"objective": draw(st.sampled_from(S.CG_OBJECTIVES)), "switches": draw(S.switches)}}
 
@@ -176,7 +176,7 @@ def cg_cases(draw):
 def cbldm_cases(draw):
     profile, values = draw(S.values_lists(2, 10, numbins=2, profiles=["tiny", "small", "small", "medium", "two-valued", "one-dominant",
                                                                       "planted", "skewed", "skewed"]))
-    case = {"alg": "cbldm", "values": values, "numbins": 2, "pres": draw(st.sampled_from(["list", "list", "dict-str"])),
+    case = {"alg": "cbldm", "values": values, "numbins": 2, "pres": draw(st.sampled_from(["list", "list", "dict-str", "dict-int", "names-array"])),
             "nseed": draw(st.integers(0, 5)), "profile": profile, "cutseed": draw(st.integers(0, 2 ** 30))}
     pd = draw(st.sampled_from([None, None, 1, 1, 2, 3]))
     if pd is not None:
@@ -191,7 +191,7 @@ def generator_cases(draw):
     # profiles on which the first Karmarkar-Karp leaf is often not optimal, so that the generator yields more than once
     profile, values = draw(S.values_lists(max(2, n_max - 2), n_max, numbins=k, profiles=["small", "medium", "medium", "large", "one-dominant",
                                                                                         "planted", "planted", "planted"]))
-    return {"alg": "ckkgen", "values": values, "numbins": k, "pres": draw(st.sampled_from(["list", "dict-str"])),
+    return {"alg": "ckkgen", "values": values, "numbins": k, "pres": draw(st.sampled_from(["list", "dict-str", "names-array"])),
             "nseed": draw(st.integers(0, 5)), "profile": profile}
 
 
